@@ -357,6 +357,25 @@ func runC08(r *rt.Run) {
 			}
 		}
 	})
+	// tracks that cover a stretch of road twice x LineString probes along
+	// either pass x the index options
+	tracks := allTracks()
+	tsets := trackOptionSets()
+	r.Bounds["twice_travelled_tracks"] = len(tracks)
+	r.Bounds["track_option_sets"] = len(tsets)
+	r.ParFor(len(tracks), func(i int, w *rt.Worker) {
+		w.States++
+		w.Nontriv++
+		doc, probes := tracks[i].doc(), tracks[i].probes()
+		w.Trans += int64(len(probes))
+		for _, os := range tsets {
+			w.Evals++
+			c08One(doc, bases[0], os, probes, func(class string, c rt.Case, exp, got string) {
+				c.X["probes"] = "track:" + tracks[i].String()
+				w.Fail(class+"-track", func() (rt.Case, string, string) { return c, trunc(exp), trunc(got) })
+			})
+		}
+	})
 	strip := circleStripDocs()
 	r.Bounds["circle_rim_documents"] = len(strip)
 	r.ParFor(len(strip), func(i int, w *rt.Worker) {
